@@ -1,6 +1,7 @@
 /-
-  Core engine (stage S2): `fresh_of_sok`, the specification records, `run_ok`, `run_prefix`,
-  `deep_ok` (DESIGN.md Appendix A.3).  Core Lean only.
+  CoreAcc engine (adapted copy of CoreRun.lean): `fresh_of_sok`, `obs_sem_of_sok`, `acc_of_sok`,
+  `calls_of_sok`, the specification records, `run_ok` (with the frame facts about `acc` / `accIn`),
+  `run_prefix`, `deep_ok` (with the flag returned by the walk).  Core Lean only.
 -/
 import SalsaVerif.Proofs.CoreAccInv
 
